@@ -116,14 +116,26 @@ func (tl *store) applyFrom(tx stoabs.WriteTx, base *event, applyList []event) er
 			return fmt.Errorf("read metadata failed: %w", err)
 		}
 		metadata = &m
-		b, err := conflictedWriter.Get(stoabs.BytesKey(document.ID.String()))
-		if err != nil && !errors.Is(err, stoabs.ErrKeyNotFound) {
-			return err
+	}
+	// Was the DID already marked as conflicted? This must also be checked when the new event became the first in the list (no base),
+	// otherwise the conflicted count depends on the order in which the events were received.
+	var id did.DID
+	if document != nil {
+		id = document.ID
+	} else if len(applyList) > 0 {
+		first, err := readDocumentFromEvent(tx, applyList[0])
+		if err != nil {
+			return fmt.Errorf("read document failed: %w", err)
 		}
-		if len(b) > 0 {
-			// it was already conflicted
-			conflicted = true
-		}
+		id = first.ID
+	}
+	b, err := conflictedWriter.Get(stoabs.BytesKey(id.String()))
+	if err != nil && !errors.Is(err, stoabs.ErrKeyNotFound) {
+		return err
+	}
+	if len(b) > 0 {
+		// it was already conflicted
+		conflicted = true
 	}
 
 	for _, nextEvent := range applyList {
